@@ -78,6 +78,8 @@ def top_bv(name, width, base_rank):
 
 
 def ctl_var(name, idx):
+    if idx >= 880:
+        raise RuntimeError("more than 880 control variables on one trace: a loop the interpreter does not bound (unmodelled iterator?)")
     return M.newvar(100 + idx, "c%d" % idx)
 
 
